@@ -256,7 +256,7 @@ func writeManifest() {
 	}
 	m := map[string]interface{}{
 		"version":   1,
-		"setup_cmd": "cd /verif && GOFLAGS=-mod=mod GOPROXY=off GOSUMDB=off GOTOOLCHAIN=local GOWORK=off go build -o bin/bfecheck ./cmd/bfecheck && bin/bfecheck -warm",
+		"setup_cmd": "cd /verif && GOFLAGS=-mod=mod GOPROXY=off GOSUMDB=off GOTOOLCHAIN=local GOWORK=off go build -o bin/bfecheck ./cmd/bfecheck && go build -o bin/goyacc golang.org/x/tools/cmd/goyacc && bin/bfecheck -warm",
 		"hooks": map[string]interface{}{
 			"guard":            "verif",
 			"enable":           "no hooks: the checks are static and read /repo's working tree; nothing is compiled into BFE",
